@@ -61,7 +61,7 @@ Definition step (i : nat) (c : config) : config :=
   Cfg (setp (c_pool c) i (fst ps)) (snd ps)
       (match wrote p with Some k => (i, k) :: c_log c | None => c_log c end).
 
-Definition run (sched : list nat) (c : config) : config := fold_left (fun c i => step i c) sched c.
+Definition exec (sched : list nat) (c : config) : config := fold_left (fun c i => step i c) sched c.
 
 Definition init (ps : pool) (s : store) : config := Cfg ps s [].
 
@@ -161,7 +161,7 @@ End Model.
 
 Arguments Ret {V R}. Arguments Get {V R}. Arguments Put {V R}.
 Arguments Cfg {V R}. Arguments c_pool {V R}. Arguments c_store {V R}. Arguments c_log {V R}.
-Arguments step1 {V R}. Arguments solo {V R}. Arguments step {V R}. Arguments run {V R}.
+Arguments step1 {V R}. Arguments solo {V R}. Arguments step {V R}. Arguments exec {V R}.
 Arguments init {V R}. Arguments result {V R}. Arguments setp {V R}. Arguments upd {V}.
 Arguments classify {V R}. Arguments kinds {V R}. Arguments wrote {V R}.
 Arguments ok {V R}. Arguments knows {V}. Arguments consistent {V}. Arguments union_store {V}. Arguments bounded {V R}.
